@@ -136,7 +136,7 @@ func Dump(ctx context.Context, db *sql.DB, o DumpOptions) (Catalog, error) {
 		// column order is not managed by atlas (an added column is appended): sorted by name.
 		var clines []string
 		for _, col := range cols {
-			clines = append(clines, fmt.Sprintf("  column %s type=%s notnull=%s default=%s pk=%s hidden=%s", col[0], col[1], col[2], normExpr(col[3]), col[4], col[5]))
+			clines = append(clines, fmt.Sprintf("  column %s type=%s notnull=%s default=%s pk=%s hidden=%s", col[0], reTypeParams.ReplaceAllString(col[1], ""), col[2], normExpr(col[3]), col[4], col[5]))
 		}
 		sort.Strings(clines)
 		c.Lines = append(c.Lines, clines...)
@@ -164,7 +164,7 @@ func Dump(ctx context.Context, db *sql.DB, o DumpOptions) (Catalog, error) {
 				// keep only what follows the table name: expression parts and WHERE clause.
 				s := r[0][0]
 				if i := strings.Index(s, "("); i >= 0 {
-					sqlText = normExpr(s[i:])
+					sqlText = reKwWhere.ReplaceAllString(normExpr(s[i:]), ") WHERE ")
 				}
 			}
 			expr := false
@@ -198,7 +198,16 @@ func Dump(ctx context.Context, db *sql.DB, o DumpOptions) (Catalog, error) {
 				ids = append(ids, f[0])
 				byID[f[0]] = []string{f[2], f[5], f[6]}
 			}
-			byID[f[0]] = append(byID[f[0]], f[3]+"->"+f[4])
+			to := f[4]
+			if to == "\x00NULL" {
+				// REFERENCES parent without a column list: the parent's primary key, in key order.
+				if pk, err := query(ctx, db, fmt.Sprintf("SELECT name FROM pragma_table_info(%q) WHERE pk > 0 ORDER BY pk", f[2])); err == nil {
+					if seq, err := strconv.Atoi(f[1]); err == nil && seq < len(pk) {
+						to = pk[seq][0]
+					}
+				}
+			}
+			byID[f[0]] = append(byID[f[0]], f[3]+"->"+to)
 		}
 		var flines []string
 		for _, id := range ids {
@@ -231,6 +240,14 @@ func Dump(ctx context.Context, db *sql.DB, o DumpOptions) (Catalog, error) {
 	}
 	return c, nil
 }
+
+var (
+	// the keyword that separates the parts of a partial index from its predicate, in any case.
+	reKwWhere = regexp.MustCompile(`(?i)\)\s*where\s+`)
+	// size / precision parameters of a declared type: ignored by SQLite (type affinity follows the
+	// name) and left out by atlas' type formatter by design ("a lowered format").
+	reTypeParams = regexp.MustCompile(`\s*\([^)]*\)`)
+)
 
 func normExpr(s string) string {
 	// a default spelled as a double-quoted token is the same string as its single-quoted spelling.
